@@ -667,6 +667,11 @@ def run(ctx):
         if n < 6:
             raise AnchorMissing("take-and-restore decoders: expected at least 6 `Ok(None)` exits from non-initial states (CommandDecoder), found %d" % n)
 
+    # the typed decoders feed their bodies to RecognizerDecoder chunk by chunk: the incremental Recon parser must not take the end of a chunk for the
+    # end of the input (C09.R3b), or a frame split at that byte is rejected
+    from rules import C09 as _C09
+    ctx.borrow(_C09, {"C09.R3b": ("C10.R14", "the incremental Recon parser under the typed decoders never decides a token before its end is in sight (C09.R3b)")})
+
 
 def _short(d):
     d = re.sub(r"\(.*?\)", "()", d)
